@@ -1837,3 +1837,9 @@ impl Actions {
         self.send.clear_queues(store, counts);
     }
 }
+
+#[cfg(feature = "verif")]
+#[allow(missing_docs, dead_code, unused_imports)]
+pub(crate) mod verif_h {
+    include!(concat!(env!("H2_VERIF_DIR"), "/harness/proto/streams/streams.rs"));
+}
